@@ -184,3 +184,12 @@ Definition check (c : case) : bool :=
    members of a store in a given key order. *)
 Definition render (order : list string) (m : store) : list (string * value) :=
   map (fun k => (k, get k m)) order.
+
+(* ------------------------------------------------------------------ omitempty vs. presence-tracking decoders
+   Gen.Codecs.sentinel_fields: every marshaled key that is read back through a decoder recording whether the key
+   was present (base.HeightDecoder: missing -> NilHeight = -1, not 0).  Such a key must always be written:
+   with omitempty a zero value (genesis height 0) would come back as the non-zero default. *)
+Definition sf_omit (e : string * string * bool * string) : bool := snd (fst e).
+Definition omit_on_sentinel : list (string * string * bool * string) := filter sf_omit sentinel_fields.
+Definition sentinel_key_listed (st k : string) : bool :=
+  existsb (fun e => String.eqb (fst (fst (fst e))) st && String.eqb (snd (fst (fst e))) k) sentinel_fields.
